@@ -157,7 +157,7 @@ def main():
         chk.violation("design-level: subgraph %d of the pair differs from its stand-alone transformation" % si,
                       {"property": "C19", "scenario": d["scn"], "clause": "design-independent", "pair": a, "alone": b})
   # ---- implementation
-  keys = common.sample_keep(sorted(pairs), 500 if args.tier == "quick" else 10**9, args.seed)
+  keys = common.sample_keep(sorted(pairs), 500 if args.tier == "quick" else 20000, args.seed)
   items = [(strip(pairs[k]["scn"]), args.seed) for k in keys]
   t0 = time.time()
   import concurrent.futures as cf
@@ -192,7 +192,7 @@ def main():
       "evaluations": ncmp, "distinct_nontrivial": sum(1 for o in results if o.get("outcome") and o["outcome"][0] == "done"),
       "rule": "two-subgraph scenarios (independent graphs, equal structure with different names, insertion-heavy subgraph 0 beside a non-trivial "
               "subgraph 1) enumerated by TLC up to the bound + random pairs of 2-5 ops; each compared with the stand-alone runs of its parts",
-      "samples": [items[0][0]] if items else [], "impl_wall_s": round(time.time() - t0, 1), "exhaustive": args.tier == "thorough",
+      "samples": [items[0][0]] if items else [], "impl_wall_s": round(time.time() - t0, 1), "exhaustive": len(keys) == len(pairs),
   })
   chk.assumptions += ["statistics are injected per subgraph and merged (equal values for the pair and the parts); constants shared between subgraphs are C15's subject and excluded here"]
   return chk.finish()
